@@ -121,7 +121,7 @@ def file_model_case(case, out, with_run):
             "multi", [], out.get("oracle", []), bool(case.get("strict_cols")), case.get("labels", []), case.get("vars", []),
             case.get("hash_threshold") or 0, case.get("engine_name", ""), case.get("answers", []),
             case.get("default_answer") or ["complete", 0], case.get("make_fail", []), case.get("sys", []),
-            case.get("sys_default") or ["exit", 0, "", ""], True,
+            case.get("sys_default") or ["exit", 0, "", ""], True, case.get("env", []),
         ]
     return [case["main"], out["fs"], out["glob"], case.get("coltype") == "two", out.get("re_valid", []), rc]
 
